@@ -43,7 +43,8 @@ DeviationNames == {
     "HsRunnerDoneWaits",     \* start_dtls waits for a DTLS state change after the runner has ended
     "StrongRefInConnLoop",   \* connected-state handler keeps a strong reference to the connection
     "WaitConnectedBlind",    \* wait_for_connected() only returns on Connected / Failed / Closed
-    "SigOverwriteClosed"     \* set_*_description commits its signaling transition after close()
+    "SigOverwriteClosed",    \* set_*_description commits its signaling transition after close()
+    "SendCheckThenPark"      \* a blocked sender checks the association state and only then creates notified()
 }
 
 Rule(p, e) == (p \in Props) => e
@@ -77,12 +78,13 @@ VARIABLES
     cl,                           \* close() invocations in progress: [1..2 -> location]
     handles, dropped,             \* application handles alive; PeerConnectionInner dropped
     calls,                        \* pending API calls
+    sendpc,                       \* the blocked send_data() call: none | check | prewait | parked
     peerAlive, alertIn, abortIn, shutdownIn,   \* the peer and what it has sent
     wfcLeft, fired                \* wait_for_connected() calls the application may still make; events fired
 
 vars == <<peer, sig, reason, ap, iceT, sock, seenL, seenC, role, lp, cp, cval, cnext, dtls, dtask, dpermit,
           seenD, sctp, stask, srun, spermit, swhy, loops, chan, opened, closes, grace, cl, handles, dropped,
-          calls, peerAlive, alertIn, abortIn, shutdownIn, wfcLeft, fired>>
+          calls, sendpc, peerAlive, alertIn, abortIn, shutdownIn, wfcLeft, fired>>
 
 -----------------------------------------------------------------------------
 (* helpers *)
@@ -153,7 +155,7 @@ Init ==
     /\ grace = FALSE
     /\ cl = [k \in 1..3 |-> "idle"]      \* 1,2: application close() calls; 3: Drop of the inner object
     /\ handles = 1 /\ dropped = FALSE
-    /\ calls = {}
+    /\ calls = {} /\ sendpc = "none"
     /\ peerAlive = TRUE /\ alertIn = FALSE /\ abortIn = FALSE /\ shutdownIn = FALSE
     /\ wfcLeft = WfcBudget
     /\ fired = <<>>
@@ -169,14 +171,14 @@ A_MakeOffer ==
     /\ chan' = IF Dc THEN "connecting" ELSE chan
     /\ UNCHANGED <<peer, sig, reason, iceT, sock, seenL, seenC, role, lp, cp, cval, cnext, dtls, dtask, dpermit,
                    seenD, sctp, stask, srun, spermit, swhy, loops, opened, closes, grace, cl, handles, dropped,
-                   calls, peerAlive, alertIn, abortIn, shutdownIn, wfcLeft, fired>>
+                   calls, sendpc, peerAlive, alertIn, abortIn, shutdownIn, wfcLeft, fired>>
 
 A_GatherDone ==
     /\ ap = "gathering"
     /\ ap' = "gathered"
     /\ UNCHANGED <<peer, sig, reason, iceT, sock, seenL, seenC, role, lp, cp, cval, cnext, dtls, dtask, dpermit,
                    seenD, sctp, stask, srun, spermit, swhy, loops, chan, opened, closes, grace, cl, handles,
-                   dropped, calls, peerAlive, alertIn, abortIn, shutdownIn, wfcLeft, fired>>
+                   dropped, calls, sendpc, peerAlive, alertIn, abortIn, shutdownIn, wfcLeft, fired>>
 
 \* set_local_description(offer): check then commit
 A_SetLocal ==
@@ -186,7 +188,7 @@ A_SetLocal ==
        ELSE sig' = sig /\ ap' = "sigFailed"
     /\ UNCHANGED <<peer, reason, iceT, sock, seenL, seenC, role, lp, cp, cval, cnext, dtls, dtask, dpermit,
                    seenD, sctp, stask, srun, spermit, swhy, loops, chan, opened, closes, grace, cl, handles,
-                   dropped, calls, peerAlive, alertIn, abortIn, shutdownIn, wfcLeft, fired>>
+                   dropped, calls, sendpc, peerAlive, alertIn, abortIn, shutdownIn, wfcLeft, fired>>
 
 \* set_remote_description(answer): signaling commit, DTLS role, ICE start
 A_SetRemote ==
@@ -199,7 +201,7 @@ A_SetRemote ==
        ELSE sig' = sig /\ ap' = "sigFailed" /\ UNCHANGED <<role, iceT, sock>>
     /\ UNCHANGED <<peer, reason, seenL, seenC, lp, cp, cval, cnext, dtls, dtask, dpermit,
                    seenD, sctp, stask, srun, spermit, swhy, loops, chan, opened, closes, grace, cl, handles,
-                   dropped, calls, peerAlive, alertIn, abortIn, shutdownIn, wfcLeft, fired>>
+                   dropped, calls, sendpc, peerAlive, alertIn, abortIn, shutdownIn, wfcLeft, fired>>
 
 \* a new local offer on an established connection
 A_Reneg ==
@@ -209,7 +211,7 @@ A_Reneg ==
     /\ sig' = "HaveLocalOffer" /\ ap' = "reneg"
     /\ UNCHANGED <<peer, reason, iceT, sock, seenL, seenC, role, lp, cp, cval, cnext, dtls, dtask, dpermit,
                    seenD, sctp, stask, srun, spermit, swhy, loops, chan, opened, closes, grace, cl, handles,
-                   dropped, calls, peerAlive, alertIn, abortIn, shutdownIn, wfcLeft, fired>>
+                   dropped, calls, sendpc, peerAlive, alertIn, abortIn, shutdownIn, wfcLeft, fired>>
 
 \* a late signaling commit after close(): the check was made before close() published Closed
 A_SigLate ==
@@ -219,7 +221,7 @@ A_SigLate ==
     /\ ap' = "sigFailed"
     /\ UNCHANGED <<peer, reason, iceT, sock, seenL, seenC, role, lp, cp, cval, cnext, dtls, dtask, dpermit,
                    seenD, sctp, stask, srun, spermit, swhy, loops, chan, opened, closes, grace, cl, handles,
-                   dropped, calls, peerAlive, alertIn, abortIn, shutdownIn, wfcLeft, fired>>
+                   dropped, calls, sendpc, peerAlive, alertIn, abortIn, shutdownIn, wfcLeft, fired>>
 
 -----------------------------------------------------------------------------
 (* close_with_reason in its steps (k = 1, 2: application calls; 3: Drop for PeerConnectionInner) *)
@@ -236,7 +238,7 @@ A_Close1(k) ==
                       ELSE CloseReason(k)
     /\ UNCHANGED <<peer, sig, ap, iceT, sock, seenL, seenC, role, lp, cp, cval, cnext, dtls, dtask, dpermit,
                    seenD, sctp, stask, srun, spermit, swhy, loops, chan, opened, closes, grace, handles,
-                   dropped, calls, peerAlive, alertIn, abortIn, shutdownIn, wfcLeft, fired>>
+                   dropped, calls, sendpc, peerAlive, alertIn, abortIn, shutdownIn, wfcLeft, fired>>
 
 A_Close2(k) ==
     /\ cl[k] = "pub"
@@ -244,7 +246,7 @@ A_Close2(k) ==
     /\ cl' = [cl EXCEPT ![k] = "sctp"]
     /\ UNCHANGED <<reason, ap, iceT, sock, seenL, seenC, role, lp, cp, cval, cnext, dtls, dtask, dpermit,
                    seenD, sctp, stask, srun, spermit, swhy, loops, chan, opened, closes, grace, handles,
-                   dropped, calls, peerAlive, alertIn, abortIn, shutdownIn, wfcLeft, fired>>
+                   dropped, calls, sendpc, peerAlive, alertIn, abortIn, shutdownIn, wfcLeft, fired>>
 
 \* SctpTransport::close(): state Closed, one permit, blocked senders woken
 A_Close3(k) ==
@@ -252,7 +254,11 @@ A_Close3(k) ==
     /\ IF sctp \notin {"none", "taken"}
        THEN sctp' = "taken" /\ spermit' = TRUE
        ELSE UNCHANGED <<sctp, spermit>>
-    /\ calls' = calls \ {"send"}
+    \* notify_waiters(): reaches the sender if it is parked - or (intended design) registered before its check
+    /\ sendpc' = IF sendpc = "parked" THEN "check"
+                 ELSE IF sendpc = "prewait" /\ "SendCheckThenPark" \notin Deviations THEN "check"
+                 ELSE sendpc
+    /\ UNCHANGED calls
     /\ cl' = [cl EXCEPT ![k] = "dtls"]
     /\ UNCHANGED <<peer, sig, reason, ap, iceT, sock, seenL, seenC, role, lp, cp, cval, cnext, dtls, dtask,
                    dpermit, seenD, stask, srun, swhy, loops, chan, opened, closes, grace, handles,
@@ -264,7 +270,7 @@ A_Close4(k) ==
     /\ cl' = [cl EXCEPT ![k] = "ice"]
     /\ UNCHANGED <<peer, sig, reason, ap, iceT, sock, seenL, seenC, role, lp, cp, cval, cnext, dtls, dtask,
                    seenD, sctp, stask, srun, spermit, swhy, loops, chan, opened, closes, grace, handles,
-                   dropped, calls, peerAlive, alertIn, abortIn, shutdownIn, wfcLeft, fired>>
+                   dropped, calls, sendpc, peerAlive, alertIn, abortIn, shutdownIn, wfcLeft, fired>>
 
 A_Close5(k) ==
     /\ cl[k] = "ice"
@@ -272,7 +278,7 @@ A_Close5(k) ==
     /\ cl' = [cl EXCEPT ![k] = "done"]
     /\ UNCHANGED <<peer, sig, reason, ap, seenL, seenC, role, lp, cp, cval, cnext, dtls, dtask, dpermit,
                    seenD, sctp, stask, srun, spermit, swhy, loops, chan, opened, closes, grace, handles,
-                   dropped, calls, peerAlive, alertIn, abortIn, shutdownIn, wfcLeft, fired>>
+                   dropped, calls, sendpc, peerAlive, alertIn, abortIn, shutdownIn, wfcLeft, fired>>
 
 \* the last application handle is gone and no task holds the connection: Drop runs close and
 \* aborts the tracked tasks (L with C inside it); the loops guard goes with C
@@ -282,7 +288,7 @@ InnerDropCore ==
     /\ dropped' = TRUE
     /\ UNCHANGED <<peer, sig, reason, ap, iceT, sock, seenL, seenC, role, lp, cp, cval, cnext, dtls, dtask,
                    dpermit, seenD, sctp, stask, srun, spermit, swhy, loops, chan, opened, closes, grace,
-                   handles, calls, peerAlive, alertIn, abortIn, shutdownIn, wfcLeft, fired>>
+                   handles, calls, sendpc, peerAlive, alertIn, abortIn, shutdownIn, wfcLeft, fired>>
 
 InnerDrop == StrongRefs = 0 /\ InnerDropCore
 
@@ -296,14 +302,14 @@ AbortTracked ==
             THEN stask' = "done" /\ GuardEffect /\ UNCHANGED loops
             ELSE UNCHANGED <<loops, stask, chan, closes>>
     /\ UNCHANGED <<peer, sig, reason, ap, iceT, sock, seenL, seenC, role, cval, cnext, dtls, dtask, dpermit,
-                   seenD, sctp, srun, spermit, swhy, opened, grace, cl, handles, dropped, calls,
+                   seenD, sctp, srun, spermit, swhy, opened, grace, cl, handles, dropped, calls, sendpc,
                    peerAlive, alertIn, abortIn, shutdownIn, wfcLeft, fired>>
 
 -----------------------------------------------------------------------------
 (* L: ice -> pc loop *)
 
 LUnch == <<sig, ap, iceT, sock, seenC, role, dtls, dtask, dpermit, seenD, sctp, stask, srun, spermit,
-           swhy, loops, chan, opened, closes, grace, cl, handles, dropped, calls, peerAlive, alertIn, abortIn,
+           swhy, loops, chan, opened, closes, grace, cl, handles, dropped, calls, sendpc, peerAlive, alertIn, abortIn,
            shutdownIn, wfcLeft, fired>>
 
 L_Top ==
@@ -334,7 +340,7 @@ L_EnterConn ==
        ELSE lp' = "top" /\ UNCHANGED <<cp, seenC>>
     /\ UNCHANGED <<peer, reason, seenL, cval, cnext>>
     /\ UNCHANGED <<sig, ap, iceT, sock, role, dtls, dtask, dpermit, seenD, sctp, stask, srun, spermit,
-                   swhy, loops, chan, opened, closes, grace, cl, handles, dropped, calls, peerAlive, alertIn,
+                   swhy, loops, chan, opened, closes, grace, cl, handles, dropped, calls, sendpc, peerAlive, alertIn,
                    abortIn, shutdownIn, wfcLeft, fired>>
 
 L_PubFailed ==
@@ -361,14 +367,14 @@ L_ConnReturn ==
             ELSE UNCHANGED <<loops, stask, chan, closes>>
     /\ UNCHANGED <<peer, reason, seenL, cval, cnext>>
     /\ UNCHANGED <<sig, ap, iceT, sock, seenC, role, dtls, dtask, dpermit, seenD, sctp, srun, spermit,
-                   swhy, opened, grace, cl, handles, dropped, calls, peerAlive, alertIn, abortIn,
+                   swhy, opened, grace, cl, handles, dropped, calls, sendpc, peerAlive, alertIn, abortIn,
                    shutdownIn, wfcLeft, fired>>
 
 -----------------------------------------------------------------------------
 (* C: connected-state handler with start_dtls *)
 
 CUnch == <<sig, ap, iceT, sock, seenL, role, lp, dtask, dpermit, srun, swhy, chan, opened, closes, cl, handles,
-           dropped, calls, peerAlive, alertIn, abortIn, shutdownIn, wfcLeft, fired>>
+           dropped, calls, sendpc, peerAlive, alertIn, abortIn, shutdownIn, wfcLeft, fired>>
 
 C_Role ==
     /\ cp = "waitRole"
@@ -393,7 +399,7 @@ C_Start ==
                  /\ UNCHANGED <<cval, cnext, reason>>
     /\ UNCHANGED <<peer, seenC, spermit, loops, grace>>
     /\ UNCHANGED <<sig, ap, iceT, sock, seenL, role, lp, dpermit, srun, swhy, chan, opened, closes, cl, handles,
-                   dropped, calls, peerAlive, alertIn, abortIn, shutdownIn, wfcLeft, fired>>
+                   dropped, calls, sendpc, peerAlive, alertIn, abortIn, shutdownIn, wfcLeft, fired>>
     /\ dtask' = IF sock /\ ~IsDirect THEN "running" ELSE dtask
 
 \* (probe dtls.handshaking) -> the select loop of start_dtls
@@ -520,7 +526,7 @@ C_Run == C_RunLoops \/ C_RunIce \/ C_RunDtls \/ C_RunGrace
 (* D: DTLS runner *)
 
 DUnch == <<peer, sig, reason, ap, iceT, sock, seenL, seenC, role, lp, cp, cval, cnext, seenD, sctp, stask, srun,
-           spermit, swhy, loops, chan, opened, closes, grace, cl, handles, dropped, calls, peerAlive,
+           spermit, swhy, loops, chan, opened, closes, grace, cl, handles, dropped, calls, sendpc, peerAlive,
            abortIn, shutdownIn, wfcLeft, fired>>
 
 D_Connect ==
@@ -556,7 +562,7 @@ D_Timeout ==
 (* S: SCTP runner (polled inline by start_dtls before DTLS is up, as a transport loop afterwards) *)
 
 SUnch == <<peer, sig, reason, ap, iceT, sock, seenL, seenC, role, lp, cp, cval, cnext, dtls, dtask, dpermit,
-           seenD, grace, cl, handles, dropped, calls, peerAlive, alertIn, wfcLeft, fired>>
+           seenD, grace, cl, handles, dropped, calls, sendpc, peerAlive, alertIn, wfcLeft, fired>>
 
 SExit(why) ==
     /\ swhy' = IF why = "" THEN swhy ELSE why
@@ -624,7 +630,7 @@ T_DirectEnd ==
 (* ICE transport and the peer *)
 
 EUnch == <<peer, sig, reason, ap, seenL, seenC, role, lp, cp, cval, cnext, dtls, dtask, dpermit, seenD, sctp, stask,
-           srun, spermit, swhy, loops, chan, opened, closes, grace, cl, handles, dropped, calls, alertIn, abortIn,
+           srun, spermit, swhy, loops, chan, opened, closes, grace, cl, handles, dropped, calls, sendpc, alertIn, abortIn,
            shutdownIn, wfcLeft, fired>>
 
 I_Connect ==
@@ -650,10 +656,27 @@ R_WaitConnected ==
     /\ \/ peer \in {"Connected", "Failed", "Closed"}
        \/ /\ "WaitConnectedBlind" \notin Deviations
           /\ peer = "Disconnected" /\ reason \notin {"None", "IceDisconnected"}
-    /\ calls' = calls \ {"wfc"}
+    /\ calls' = calls \ {"wfc"} /\ UNCHANGED sendpc
     /\ UNCHANGED <<peer, sig, reason, ap, iceT, sock, seenL, seenC, role, lp, cp, cval, cnext, dtls, dtask, dpermit,
                    seenD, sctp, stask, srun, spermit, swhy, loops, chan, opened, closes, grace, cl, handles, dropped,
                    peerAlive, alertIn, abortIn, shutdownIn, wfcLeft, fired>>
+
+\* the send_data() call blocked on the buffered-amount limit (flow-control loop of send_data_raw)
+SendUnch == <<peer, sig, reason, ap, iceT, sock, seenL, seenC, role, lp, cp, cval, cnext, dtls, dtask, dpermit,
+              seenD, sctp, stask, srun, spermit, swhy, loops, chan, opened, closes, grace, cl, handles, dropped,
+              peerAlive, alertIn, abortIn, shutdownIn, wfcLeft, fired>>
+
+R_SendCheck ==
+    /\ sendpc = "check"
+    /\ IF sctp = "taken"
+       THEN calls' = calls \ {"send"} /\ sendpc' = "none"       \* "sctp association closed"
+       ELSE UNCHANGED calls /\ sendpc' = "prewait"              \* still over the limit (the peer is gone)
+    /\ UNCHANGED SendUnch
+
+R_SendPark ==
+    /\ sendpc = "prewait"
+    /\ sendpc' = "parked"
+    /\ UNCHANGED calls /\ UNCHANGED SendUnch
 
 -----------------------------------------------------------------------------
 (* terminating events of the scenario *)
@@ -674,29 +697,29 @@ FreeCloser == CHOOSE k \in {1, 2} : cl[k] \in {"idle", "done"}
 Effect(e) ==
     CASE e = "Close" ->
            /\ cl' = [cl EXCEPT ![FreeCloser] = "begin"]
-           /\ UNCHANGED <<handles, iceT, sock, peerAlive, alertIn, abortIn, shutdownIn, calls>>
+           /\ UNCHANGED <<handles, iceT, sock, peerAlive, alertIn, abortIn, shutdownIn, calls, sendpc>>
       [] e = "Drop" ->
            \* every handle goes, also those held by the application's pending calls
-           /\ handles' = 0 /\ calls' = {}
+           /\ handles' = 0 /\ calls' = {} /\ sendpc' = "none"
            /\ UNCHANGED <<cl, iceT, sock, peerAlive, alertIn, abortIn, shutdownIn>>
       [] e = "IceStop" ->
            /\ iceT' = "Closed" /\ sock' = FALSE
-           /\ UNCHANGED <<cl, handles, peerAlive, alertIn, abortIn, shutdownIn, calls>>
+           /\ UNCHANGED <<cl, handles, peerAlive, alertIn, abortIn, shutdownIn, calls, sendpc>>
       [] e = "PeerCloseNotify" ->
            /\ alertIn' = TRUE /\ peerAlive' = FALSE
-           /\ UNCHANGED <<cl, handles, iceT, sock, abortIn, shutdownIn, calls>>
+           /\ UNCHANGED <<cl, handles, iceT, sock, abortIn, shutdownIn, calls, sendpc>>
       [] e = "PeerSctpAbort" ->
            /\ abortIn' = TRUE /\ peerAlive' = FALSE
-           /\ UNCHANGED <<cl, handles, iceT, sock, alertIn, shutdownIn, calls>>
+           /\ UNCHANGED <<cl, handles, iceT, sock, alertIn, shutdownIn, calls, sendpc>>
       [] e = "PeerSctpShutdown" ->
            /\ shutdownIn' = TRUE /\ peerAlive' = FALSE
-           /\ UNCHANGED <<cl, handles, iceT, sock, alertIn, abortIn, calls>>
+           /\ UNCHANGED <<cl, handles, iceT, sock, alertIn, abortIn, calls, sendpc>>
       [] e = "SocketLoss" ->
            /\ peerAlive' = FALSE
-           /\ UNCHANGED <<cl, handles, iceT, sock, alertIn, abortIn, shutdownIn, calls>>
+           /\ UNCHANGED <<cl, handles, iceT, sock, alertIn, abortIn, shutdownIn, calls, sendpc>>
       [] e = "BlockedSender" ->
            \* the peer vanishes, a send_data call blocks on the buffer limit, then the application closes
-           /\ peerAlive' = FALSE /\ calls' = calls \cup {"send"}
+           /\ peerAlive' = FALSE /\ calls' = calls \cup {"send"} /\ sendpc' = "check"
            /\ cl' = [cl EXCEPT ![FreeCloser] = "begin"]
            /\ UNCHANGED <<handles, iceT, sock, alertIn, abortIn, shutdownIn>>
 
@@ -707,7 +730,8 @@ Fire(e) ==
     /\ Applicable(e)
     /\ Effect(e)
     /\ fired' = Append(fired, [ev |-> e, phase |-> PhaseNow,
-                               at |-> IF IsPre(cp) THEN cp ELSE
+                               at |-> IF sendpc = "prewait" THEN "sctp:send.before_wait" ELSE
+                                      IF IsPre(cp) THEN cp ELSE
                                       IF lp \in {"pre:iceloop.ice_failed", "pre:iceloop.ice_closed"}
                                       THEN lp ELSE "any"])
     /\ UNCHANGED <<peer, sig, reason, ap, seenL, seenC, role, lp, cp, cval, cnext, dtls, dtask, dpermit, seenD, sctp,
@@ -718,7 +742,7 @@ A_CallWfc ==
     /\ "wfc" \notin calls /\ handles > 0 /\ wfcLeft > 0
     /\ ap \notin {"init", "gathering", "gathered"}
     /\ (fired = <<>> => wfcLeft = WfcBudget)
-    /\ calls' = calls \cup {"wfc"}
+    /\ calls' = calls \cup {"wfc"} /\ UNCHANGED sendpc
     /\ wfcLeft' = wfcLeft - 1
     /\ UNCHANGED <<peer, sig, reason, ap, iceT, sock, seenL, seenC, role, lp, cp, cval, cnext, dtls, dtask, dpermit,
                    seenD, sctp, stask, srun, spermit, swhy, loops, chan, opened, closes, grace, cl, handles, dropped,
@@ -735,7 +759,7 @@ Next ==
     \/ S_Start \/ S_DtlsUp \/ S_Established \/ S_ChanOpen \/ S_Closed \/ S_DtlsGone \/ S_Abort \/ S_PeerSilent
     \/ T_DirectEnd
     \/ I_Connect \/ I_Disconnect \/ I_Fail
-    \/ R_WaitConnected
+    \/ R_WaitConnected \/ R_SendCheck \/ R_SendPark
     \/ (\E e \in Events : Fire(e)) \/ A_CallWfc
 
 \* every step of the code's own tasks is fair; the application script and the events are not
@@ -749,6 +773,7 @@ Fairness ==
     /\ WF_vars(\E k \in 1..3 : A_Close1(k) \/ A_Close2(k) \/ A_Close3(k) \/ A_Close4(k) \/ A_Close5(k))
     /\ WF_vars(InnerDrop \/ AbortTracked)
     /\ WF_vars(R_WaitConnected)
+    /\ WF_vars(R_SendCheck \/ R_SendPark)
     /\ WF_vars(A_MakeOffer \/ A_GatherDone \/ A_SetLocal \/ A_SetRemote \/ A_Reneg)
     /\ WF_vars(A_CallWfc)
 
